@@ -156,6 +156,16 @@ def check_forest(res, case, num, forest, rng, idx_cap):
         if not (t1 == t2 == t3):
             res["violations"].append({"kind": "lazy-vs-nonlazy", "case": case, "index": i,
                                       "observed": [t1, t2, t3]})
+        elif i < 6 and len(t1) < 4000:
+            # the same trees through the `.children` attribute of the nodes
+            try:
+                c1 = tree_sexp(num, forest[i], via_children=True)
+                c2 = tree_sexp(num, forest.get_nonlazy_tree(i), via_children=True)
+            except Exception as e:
+                c1, c2 = "raises", type(e).__name__
+            if not (c1 == c2 == t1):
+                res["violations"].append({"kind": "lazy-vs-nonlazy-through-children", "case": case, "index": i,
+                                          "observed": [c1[:300], c2[:300]], "expected": t1[:300]})
         exp.append((b.add("treeat", d.root, i), "tree " + t1, None))
         if t1 in strs:
             dup_trees.append({"i": strs[t1], "j": i, "tree": t1})
